@@ -136,6 +136,15 @@ structure SiteCfg where
   strip : Str → Str
   /-- modification time reported for every object (times are masked in every comparison) -/
   mtime : Nat := 1
+  /-- `url.HTMLURLHandler` heads the handler list (as shipped), with its own filter table -/
+  url : Bool := false
+  urlForbidden : List Str := []
+  /-- `html.HTMLFileTitleHandler` precedes the file handler (as shipped): `isHtml sel` is its own test
+      (`mimetypes.guess_type(selector)` says `text/html`), `title sel` the complete `<title>` it finds in the
+      file, white space collapsed (`html.parser` is a library oracle) -/
+  htmlTitles : Bool := false
+  isHtml : Str → Bool := fun _ => false
+  title : Str → Option Str := fun _ => none
 
 /-! ## what the file system says about one selector -/
 
@@ -183,19 +192,29 @@ inductive Handler
   | gophermapFile   -- regular file named `*.gophermap`
   | dir             -- `UMNDirHandler` / `DirHandler`
   | file            -- `FileHandler`
+  | url             -- `HTMLURLHandler`: a `URL:` selector answered with a redirect page
+  | htmlFile        -- `HTMLFileTitleHandler`: a file handler whose entry is named by the document's title
   deriving DecidableEq, Repr
 
 def endsWithGophermap (sel : Str) : Bool := isSuffixB (lit ".gophermap") sel
 
 /-- `getHandler`: every handler's `isrequestforme` is `isrequestsecure() and canhandlerequest()` -/
 def dispatch (c : SiteCfg) (st : StatFn) (sel : Str) : Handler :=
-  if !secureB c.forbidden sel then .notFound
+  if c.url && urlSecureB c.urlForbidden sel then .url          -- its own filter: `..` and `//` are fine inside a URL
+  else if !secureB c.forbidden sel then .notFound
   else match st sel with
     | some (.dir _) =>
       if c.gophermap && (match st (sel ++ lit "/gophermap") with | some (.file _) => true | _ => false)
       then .gophermapDir else .dir
-    | some (.file _) => if c.gophermap && endsWithGophermap sel then .gophermapFile else .file
+    | some (.file _) =>
+      if c.gophermap && endsWithGophermap sel then .gophermapFile
+      else if c.htmlTitles && c.isHtml sel then .htmlFile else .file
     | _ => .notFound
+
+/-- handlers that are `FileHandler` instances (extension stripping applies to their entries) -/
+def Handler.isFileHandler : Handler → Bool
+  | .file | .htmlFile => true
+  | _ => false
 
 def Handler.isMenu : Handler → Bool
   | .gophermapDir | .gophermapFile | .dir => true
@@ -206,26 +225,38 @@ inductive Served
   | notFound
   | menu
   | document (data : Bytes)
+  /-- a page the server writes itself (the URL redirect page) -/
+  | generated (text : Str)
+
+/-- the URL a `URL:` selector stands for -/
+def urlOfSelector (sel : Str) : Str := if sel.head? = some 47 then sel.drop 5 else sel.drop 4
 
 def serve (c : SiteCfg) (st : StatFn) (sel : Str) : Served :=
   match dispatch c st sel with
   | .notFound => .notFound
-  | .file => match st sel with
+  | .file | .htmlFile => match st sel with
     | some (.file d) => .document d
     | _ => .notFound
+  | .url => .generated (emit (urlRedirectSegs (urlOfSelector sel)))
   | _ => .menu
 
 /-! ## entries -/
 
 /-- the entry `handler.getentry()` gives for an existing local object (`populatefromfs`) -/
 def entryAt (c : SiteCfg) (st : StatFn) (sel : Str) : Option Entry :=
+  if dispatch c st sel = .url then
+    -- `HTMLURLHandler.getentry`: nothing is looked up on disk
+    some { selector := sel, name := some sel, mimetype := some (lit "text/html"), type := some (lit "h") }
+  else
   (popAt c st sel).map fun pi =>
     -- a `*.gophermap` file claimed by the gophermap handler is a menu, not a document of its MIME type
     let e0 : Entry :=
       if dispatch c st sel = .gophermapFile then
         { selector := sel, type := some (lit "1"), mimetype := some (lit "application/gopher-menu") }
       else { selector := sel }
-    populateWith c.eaexts c.defaultMime pi e0
+    let e := populateWith c.eaexts c.defaultMime pi e0
+    -- `HTMLFileTitleHandler.getentry`: a complete title names the entry
+    if dispatch c st sel = .htmlFile then (match c.title sel with | some t => { e with name := some t } | none => e) else e
 
 /-- one directory member as `Model/Umn` wants it -/
 def childOf (c : SiteCfg) (st : StatFn) (base : Str) (name : Str) (k : Node) : Child :=
@@ -234,7 +265,7 @@ def childOf (c : SiteCfg) (st : StatFn) (base : Str) (name : Str) (k : Node) : C
     isDir := k.isDir
     entry := match dispatch c st sel with
       | .notFound => none
-      | h => (entryAt c st sel).map fun e => (e, h == .file)
+      | h => (entryAt c st sel).map fun e => (e, h.isFileHandler)
     stripped := c.strip name
     cap := (readAt st (base ++ lit "/.cap/" ++ name)).map textLines
     lines := match k with
